@@ -3,11 +3,12 @@ import json
 
 from props.evalcommon import py_exec
 from props.mutcommon import canon_state, check_wf
-from props.passcommon import py_passes, gen_spec, gen_pass_circuit, LEAVES
+from props.passcommon import py_passes, gen_spec, gen_pass_circuit, LEAVES, mk_tr
+from common import circ_from_json, circ_to_json, err_name
 
 RULE = ('random circuits over all gate types (n-ary gates, L*/R* chains feeding symmetric gates, forced duplicate and '
         'equivalent gates, unary chains, constants, outputs that are inputs/repeated/dead logic) x {each pass via '
-        'transform, each _transform alone, random pipelines (|, compositions, lists), cleanup light/heavy}; results '
+        'transform, each _transform alone, random pipelines (|, compositions, lists), cleanup light/heavy}; one pass object reused on several circuits (relabelled copies, fresh ones); results '
         'compared exactly with the model; non-trivial = >=3 non-input gates; distinct by (circuit, pipeline)')
 ASSUMPTIONS = ['argument circuits are well formed (WFU)']
 TRUSTED = ['search oracle: truth tables through the real evaluator (C01), interface and size comparisons in the harness, '
@@ -114,6 +115,57 @@ def search(ctx):
     for r, verdict in zip(origin, check_wf(ctx, states)):
         if verdict != 'ok':
             ctx.violation('pass.not_wellformed', f'result of {r["mode"]} is not well formed: {verdict}', input=r)
+    reuse(ctx)
+
+
+def relabel(rng, j):
+    """the same circuit with the labels of its non-input gates permuted (same function, other label -> gate association)"""
+    non_in = [g[0] for g in j['gates'] if g[1] != 'INPUT']
+    perm = list(non_in)
+    rng.shuffle(perm)
+    m = dict(zip(non_in, perm))
+    f = lambda l: m.get(l, l)
+    return {'gates': [[f(g[0]), g[1], [f(o) for o in g[2]]] for g in j['gates']], 'inputs': list(j['inputs']),
+            'outputs': [f(o) for o in j['outputs']], 'blocks': []}
+
+
+def reuse(ctx):
+    """one pass / pipeline object applied to several circuits in a row (a pass keeps no state between calls):
+    every result must have the argument's interface and truth table"""
+    rng = ctx.rng('reuse')
+    for k in range(ctx.scale(40, 800)):
+        spec = rng.choice(LEAVES) if rng.random() < 0.5 else gen_spec(rng)
+        try:
+            t = mk_tr(spec)
+        except Exception:  # noqa: BLE001
+            continue
+        seq = []
+        j, _ = gen_pass_circuit(ctx, rng)
+        for i in range(rng.randint(2, 4)):
+            seq.append(j)
+            j = relabel(rng, j) if rng.random() < 0.6 else gen_pass_circuit(ctx, rng)[0]
+        removal = uses_removal(spec)
+        for i, j in enumerate(seq):
+            ctx.case(json.dumps(['reuse', spec, i, j['gates'], j['outputs']]))
+            inp = {'spec': spec, 'circuits': seq[:i + 1]}
+            base_tt = py_exec({'op': 'truth_table', 'c': j})
+            if 'err' in base_tt:
+                break
+            try:
+                r = circ_to_json(t.transform(circ_from_json(j)))
+            except Exception as e:  # noqa: BLE001
+                ctx.violation('pass.reuse_raises', f'{json.dumps(spec)} applied to its circuit #{i + 1} raised {err_name(e)}', input=inp)
+                break
+            if removal and r['inputs'] != j['inputs']:
+                ctx.count('reuse:inputs_removed')
+                continue
+            if r['inputs'] != j['inputs'] or len(r['outputs']) != len(j['outputs']):
+                ctx.violation('pass.reuse_interface', f'{json.dumps(spec)} applied to its circuit #{i + 1}: interface changed', input=inp)
+                break
+            if py_exec({'op': 'truth_table', 'c': r}) != base_tt:
+                ctx.violation('pass.reuse_truth_table', f'{json.dumps(spec)} applied to its circuit #{i + 1}: truth table changed', input=inp)
+                break
+            ctx.count('reuse:ok')
 
 
 def replay(ctx, rp):
